@@ -17,7 +17,7 @@ import numpy as np
 
 from .. import taps, gen
 from ..ctx import Skip, digest
-from ..snap import snap, is_obs
+from ..snap import snap, is_obs, any_digest
 from ..ref import cov as rcov
 
 ID = 'C06'
@@ -60,6 +60,7 @@ class CovMonitor(taps.Monitor):
                 return None
             if not all(hasattr(o, 'e_dvalue') for o in lst):
                 return ('unanalysed', None, None)
+            self.digest_before = any_digest(lst)
             return ('ok', [snap(o) for o in lst], [float(o.dvalue) for o in lst])
         except Exception:
             return None
@@ -70,6 +71,10 @@ class CovMonitor(taps.Monitor):
             ctx.count('cov_calls_not_judged')
             return
         state, snaps, errs = token
+        if state == 'ok' and exc is None:
+            obs_after = list(kwargs['obs'] if 'obs' in kwargs else args[0])
+            if any_digest(obs_after) != self.digest_before:
+                ctx.count('arguments_modified_by_call:covariance')
         if state == 'unanalysed':
             ctx.ev()
             if exc is None:
@@ -94,7 +99,10 @@ class CovMonitor(taps.Monitor):
         if any((not np.isfinite(e)) or e <= 0 for e in errs):
             ctx.count('cov_calls_not_judged')
             return
-        m, corr, cov = rcov.matrices(snaps, errs)
+        key = self.digest_before + repr(errs)
+        if getattr(self, 'memo_key', None) != key:
+            self.memo_key, self.memo = key, rcov.matrices(snaps, errs)
+        m, corr, cov = self.memo
         if not np.all(np.isfinite(corr)):
             ctx.count('cov_calls_not_judged')
             return
@@ -380,6 +388,16 @@ def build_list(ctx, rng, size, support, relation):
                 else:
                     o = np.sin(o) + obs[k]
                 tab = None
+        if support != 'cov_only' and rng.random() < 0.12:
+            # spectator: another ensemble (or covariance input) that enters with factor exactly zero - its names appear, nothing else may change
+            used_e = set(e for e, _ in ensembles)
+            e_sp = str(rng.choice([e for e in gen.ENS_POOL if e not in used_e]))
+            t_sp = gen.rand_table(rng, e_sp, ['r1'], 12, 20, idl_kinds=['contig'], data_kinds=['white'])
+            z = gen.table_to_obs(pe, t_sp)
+            if rng.random() < 0.3:
+                z = z + pe.cov_Obs(0.0, 0.01, 'cvSp')
+            o = (0.0 * z + o) if rng.random() < 0.5 else (o + 0.0 * z)
+            CTX.count('spectator_cases')
         obs.append(o)
         tables.append(tab)
         jacs.append(jac)
@@ -434,7 +452,7 @@ def case_cov(ctx, rng, size, support, relation):
     perm = [int(p) for p in rng.permutation(n)]
     if perm == list(range(n)):
         perm = perm[1:] + perm[:1]
-    Cp = pe.covariance([obs[p] for p in perm])
+    Cp = pe.covariance([obs[p] for p in perm]) if n <= 20 else rcov.permute(C, perm)
     Rp = pe.covariance([obs[p] for p in perm], correlation=True)
     ctx.count('permutations_judged')
     ctx.close(Cp / np.outer(errs[perm], errs[perm]), rcov.permute(C, perm) / np.outer(errs[perm], errs[perm]),
@@ -443,6 +461,7 @@ def case_cov(ctx, rng, size, support, relation):
 
     # Pearson identity from the generated tables (single chain, primaries)
     if L['single_chain']:
+        tdel = [None if t_ is None else table_deltas(t_, next(iter(t_))) for t_ in L['tables']]
         for i in range(n):
             for j in range(i + 1, n):
                 if L['tables'][i] is None or L['tables'][j] is None:
@@ -450,7 +469,7 @@ def case_cov(ctx, rng, size, support, relation):
                 (ci,), (cj,) = list(L['tables'][i]), list(L['tables'][j])
                 if ci != cj:
                     continue
-                p = rcov.pearson_common(table_deltas(L['tables'][i], ci), table_deltas(L['tables'][j], cj))
+                p = rcov.pearson_common(tdel[i], tdel[j])
                 if p is None:
                     continue
                 ctx.count('pearson_pairs')
@@ -496,11 +515,13 @@ def case_cov(ctx, rng, size, support, relation):
     adm, endp = rcov.admissible_E(n)
     if n >= 5:
         ctx.cell('cov', size, support, relation, 'smooth')
+    if len(adm) > 6:
+        adm = sorted(set([adm[0], adm[-1]] + [int(e_) for e_ in rng.choice(adm, size=2 if n > 20 else 4, replace=False)]))
     for E in adm:
         as_corr = bool(rng.integers(0, 2))
         pe.covariance(obs, correlation=as_corr, smooth=E)       # judged by the monitor
         ctx.cell('smooth', n, E)
-    for E in sorted(set([-1, 0, 1, n, n + 1]) | set(endp)):
+    for E in (sorted(set([-1, 0, 1, n, n + 1]) | set(endp)) if n <= 20 else [1, n]):
         try:
             pe.covariance(obs, correlation=True, smooth=E)      # acceptance is judged by the monitor
             ctx.count('smooth_inadmissible_or_endpoint_E_returned')
@@ -666,7 +687,13 @@ def case_chol(ctx, rng):
         except (ValueError, np.linalg.LinAlgError):
             ctx.count('chol_ill_conditioned_rejected')
         raise Skip()
-    got = pe.obs.invert_corr_cov_cholesky(corr.copy(), np.diag(1 / errs))
+    corr_arg, inv_arg = corr.copy(), np.diag(1 / errs)
+    before = any_digest([corr_arg, inv_arg])
+    got = pe.obs.invert_corr_cov_cholesky(corr_arg, inv_arg)
+    if any_digest([corr_arg, inv_arg]) != before:
+        ctx.count('arguments_modified_by_call:invert_corr_cov_cholesky')
+    ctx.require(np.array_equal(np.asarray(pe.obs.invert_corr_cov_cholesky(corr_arg, inv_arg)), np.asarray(got)),
+                'chol:second-call-with-the-same-argument-objects-differs', {'n': n})
     got = np.asarray(got, dtype=float)
     ctx.count('chol_judged')
     what = 'n=%d cond=%.2e source=%s' % (n, cond, src)
@@ -692,9 +719,16 @@ def case_sort_corr(ctx, rng):
     nk = int(rng.integers(1, 6))
     kl = [str(k) for k in rng.choice(KEY_POOL, size=nk, replace=False)]
     src = str(rng.choice(['numbers', 'observables']))
+    many = rng.random() < 0.2
+    if many:
+        # more than ten keys (numbered: 'k10' sorts before 'k2') and more than a hundred rows
+        nk = int(rng.integers(11, 15))
+        kl = ['k%d' % i for i in rng.permutation(nk + 3)[:nk]]
+        src = 'numbers'
+        ctx.count('many_key_cases')
     ctx.cell('helper', 'sort_corr', src, 'already_sorted' if kl == sorted(kl) else 'unsorted')
     if src == 'numbers':
-        lengths = {k: int(rng.integers(0 if nk > 1 else 1, 5)) for k in kl}
+        lengths = {k: int(rng.integers(0 if nk > 1 else 1, 5)) if not many else int(rng.integers(5, 13)) for k in kl}
         if sum(lengths.values()) == 0:
             lengths[kl[0]] = 2
         tot = sum(lengths.values())
@@ -705,7 +739,13 @@ def case_sort_corr(ctx, rng):
         items = list(yd.items())
         rng.shuffle(items)
         yd = dict(items)
-        got = pe.obs.sort_corr(corr.copy(), list(kl), yd)
+        corr_arg, kl_arg = corr.copy(), list(kl)
+        before = any_digest([corr_arg, kl_arg, yd])
+        got = pe.obs.sort_corr(corr_arg, kl_arg, yd)
+        if any_digest([corr_arg, kl_arg, yd]) != before:
+            ctx.count('arguments_modified_by_call:sort_corr')
+        ctx.require(np.array_equal(np.asarray(pe.obs.sort_corr(corr_arg, kl_arg, yd)), np.asarray(got)),
+                    'sort_corr:second-call-with-the-same-argument-objects-differs', {'kl': kl})
         perm = rcov.sort_permutation(kl, lengths)
         ctx.count('sort_corr_judged')
         ctx.require(np.array_equal(np.asarray(got), rcov.permute(corr, perm)), 'sort_corr:not-the-key-sorted-permutation',
@@ -725,7 +765,13 @@ def case_sort_corr(ctx, rng):
             yd[k] = obs[pos:pos + lengths[k]]
             pos += lengths[k]
         corr = pe.covariance(obs, correlation=True)
-        got = pe.obs.sort_corr(corr.copy(), list(kl), yd)
+        corr_arg, kl_arg = corr.copy(), list(kl)
+        before = any_digest([corr_arg, kl_arg, yd])
+        got = pe.obs.sort_corr(corr_arg, kl_arg, yd)
+        if any_digest([corr_arg, kl_arg, yd]) != before:
+            ctx.count('arguments_modified_by_call:sort_corr')
+        ctx.require(np.array_equal(np.asarray(pe.obs.sort_corr(corr_arg, kl_arg, yd)), np.asarray(got)),
+                    'sort_corr:second-call-with-the-same-argument-objects-differs', {'kl': kl})
         perm = rcov.sort_permutation(kl, lengths)
         ctx.count('sort_corr_judged')
         ctx.require(np.array_equal(np.asarray(got), rcov.permute(corr, perm)), 'sort_corr:not-the-key-sorted-permutation',
@@ -787,7 +833,28 @@ def case_error_band(ctx, rng):
     if not np.all(np.isfinite(exp)) or np.any(exp ** 2 < 1e-8 * quad_scale):
         raise Skip()
     arg_x = xs if rng.random() < 0.5 else list(xs)
+    spectator = None
+    if rng.random() < 0.3:
+        # a parameter the model does not use, in the first or the last slot (correlated with the others): gradient exactly zero
+        spectator = str(rng.choice(['first', 'last']))
+        extra = 0.7 * beta[0] + 0.4 + (0.3 * beta[-1] if len(beta) > 1 else 0.0)
+        extra.gamma_method(S=svals[0])
+        f_core, r_core = f_lib, f_ref
+        if spectator == 'first':
+            beta = [extra] + beta
+            f_lib = lambda p_, x_: f_core(p_[1:], x_)
+            f_ref = lambda p_, x_: r_core(p_[1:], x_)
+        else:
+            beta = beta + [extra]
+            f_lib = lambda p_, x_: f_core(p_[:-1], x_)
+            f_ref = lambda p_, x_: r_core(p_[:-1], x_)
+        svals = ([svals[0]] + svals) if spectator == 'first' else (svals + [svals[0]])
+        ctx.count('spectator_cases')
+        ctx.cell('helper', 'error_band_spectator', spectator)
+    before = any_digest([arg_x, beta])
     got = pe.fits.error_band(arg_x, f_lib, beta)
+    if any_digest([arg_x, beta]) != before:
+        ctx.count('arguments_modified_by_call:error_band')
     ctx.count('error_band_judged')
     ctx.close(np.asarray(got, dtype=float), exp, 'error_band:differs-from-sqrt-gT-C-g', 'model %s support %s error size %.1e' % (name, support, esize), rtol=1e-8)
     # the SAME model function object with other parameter values and other points (nothing of the first call may be remembered)
@@ -867,18 +934,24 @@ def teardown(ctx):
 
 
 def plan(tier):
-    m = 2 if tier == 'quick' else 96
+    m = 2 if tier == 'quick' else 60
     p = []
     for size in SIZES:
         for sup in SUPPORTS:
             rels = RELATIONS if sup != 'cov_only' else ['identical']
             for rel in rels:
-                reps = {2: 8, 3: 7, 5: 5, 8: 3}[size] * (3 if sup == 'cov_only' else (2 if sup == 'one_chain' else 1))
+                reps = {2: 8, 3: 7, 5: 5, 8: 3}[size] * (3 if sup == 'cov_only' else (3 if sup == 'one_chain' and rel == 'identical' else (2 if sup == 'one_chain' else 1)))
                 p.append(('cov:%d:%s:%s' % (size, sup, rel), reps * m))
     for sup in SUPPORTS:
         for rel in (RELATIONS if sup != 'cov_only' else ['identical']):
             p.append(('scale:%s:%s' % (sup, rel), 8 * m))
-    p.append(('history', 40 * m))
+    # more than 10 / more than 100 members (positions with two and three digits)
+    for sup, rel in (('one_chain', 'nested'), ('two_ens', 'identical'), ('mixed', 'overlapping'), ('replicas', 'identical'), ('cov_only', 'identical')):
+        p.append(('cov:12:%s:%s' % (sup, rel), max(1, m // 2)))
+    p.append(('cov:110:one_chain:nested', max(1, m // 4)))
+    if tier != 'quick':
+        p.append(('cov:104:two_ens:overlapping', 2))
+    p.append(('history', 90 * m))
     p.append(('unanalysed', 5 * m))
     p.append(('chol', 100 * m))
     p.append(('sort_corr', 100 * m))
